@@ -5,18 +5,19 @@
 //!   map-desc M which src dst kind d             -> ok d' | err e                         kind = f | m | r
 //!   map-member M kind src dst supers owner n d  -> ok ((fail?) (mapped?) (ref?))         kind = f | m
 //!   map-mref M src dst supers class n d         -> ok (class n d) | err e
-//!   oracle-mapclass-spec, oracle-desc-shape, oracle-desc-rejects, oracle-member-resolution, oracle-fallback,
-//!   oracle-roundtrip-class, oracle-roundtrip-desc, oracle-roundtrip-member
+//!   oracle-mapclass-spec, oracle-desc-shape, oracle-desc-rejects, oracle-member-resolution, oracle-member-nearest
+//!   (+ oracle-member-nearest-full: the same without its domain, only for replaying the known finding),
+//!   oracle-fallback, oracle-roundtrip-class, oracle-roundtrip-desc, oracle-roundtrip-member
 //! supers = ((class (super…))…), first matching row is the answer of the `SuperClassProvider`.
 use std::collections::HashMap;
 use anyhow::Result;
-use indexmap::IndexSet;
+use indexmap::{IndexMap, IndexSet};
 use java_string::{JavaCodePoint, JavaStr, JavaString};
 use duke::tree::class::{ClassName, ObjClassName, ObjClassNameSlice};
 use duke::tree::descriptor::ReturnDescriptor;
 use duke::tree::field::{FieldDescriptorSlice, FieldNameSlice, FieldRef};
 use duke::tree::method::{MethodDescriptorSlice, MethodNameSlice, MethodRef, MethodRefObj};
-use quill::remapper::{ARemapper, BRemapper, NoSuperClassProvider, SuperClassProvider};
+use quill::remapper::{ARemapper, BRemapper, JarSuperProv, NoSuperClassProvider};
 use quill::tree::names::Namespace;
 use fvh::mapcodec::{self, cn, fdesc, fname, from_sexp, mdesc, mname, M};
 use fvh::mapgen::{GClass, GMappings, GMember};
@@ -138,7 +139,7 @@ fn scan_bad(s: &[u32]) -> bool {
 
 // ------------------------------------------------------------------------------------------------ generator
 
-const CLS0: &[&str] = &["a", "b", "L", "LL", "p/Foo", "p/Bar", "L/L", "net/mc/Q", "A$B", "A$B$C", "A", "x1", "é", "日本/語", "\u{1f600}", "p/L$L", "Z", "I"];
+const CLS0: &[&str] = &["a", "b", "L", "LL", "p/Foo", "p/Bar", "L/L", "net/mc/Q", "A$B", "A$B$C", "A", "x1", "é", "日本/語", "\u{1f600}", "p/L$L", "Z", "I", "A$", "$", "p/a$L$"];
 const CLST: &[&str] = &["a", "b", "c", "L", "T", "q/Foo", "q/Bar", "X$Y", "L$L", "ß", "\u{10000}x", "r/s/T", "V"];
 const UNMAPPED: &[&str] = &["java/lang/Object", "un/mapped", "X", "L"];
 const MEM0: &[&str] = &["f", "g", "x1", "L", "<init>", "é"];
@@ -167,11 +168,15 @@ fn other_names(r: &mut Rng, n: usize, absent: usize, pool: &[&str], uniq: &str, 
 	(1..n).map(|i| if r.chance(absent, 100) { None } else if r.chance(collide, 100) { Some((*r.pick(pool)).to_owned()) } else { Some(format!("{uniq}_{i}")) }).collect()
 }
 
-fn gen_case(r: &mut Rng, out: &mut Out) -> Case {
+/// `inherit`: cases aimed at the super-type search — most classes fully named with distinct target names, members
+/// drawn from a small pool of keys so that several classes of one hierarchy declare the same member (shadowing)
+fn gen_case(r: &mut Rng, out: &mut Out, inherit: bool) -> Case {
 	let n = r.range(2, 4);
-	let absent = *r.pick(&[0, 10, 25, 50]);
-	let collide = *r.pick(&[0, 30, 70, 100]);
-	let nclasses = if r.chance(1, 8) { r.below(3) } else { r.range(3, 9) };
+	let absent = if inherit { *r.pick(&[0, 0, 10]) } else { *r.pick(&[0, 10, 25, 50]) };
+	let collide = if inherit { 0 } else { *r.pick(&[0, 30, 70, 100]) };
+	let mcollide = if inherit { 0 } else { collide.max(30) };
+	let reuse = if inherit { 3 } else { 1 }; // of 4: chance to redeclare an earlier member
+	let nclasses = if inherit { r.range(4, 9) } else if r.chance(1, 8) { r.below(3) } else { r.range(3, 9) };
 	let mut names0: Vec<String> = Vec::new();
 	for _ in 0..nclasses {
 		let c = (*r.pick(CLS0)).to_owned();
@@ -186,24 +191,30 @@ fn gen_case(r: &mut Rng, out: &mut Out) -> Case {
 		let mut fields: Vec<GMember> = Vec::new();
 		let mut fd = Vec::new();
 		for fi in 0..r.below(4) {
-			let name = (*r.pick(MEM0)).to_owned();
-			let d = gen_field_desc(r, &names0);
+			// shadowing: redeclare a member of an earlier class (same name and descriptor, other target names)
+			let prev: Vec<(Vec<Option<String>>, Desc)> = classes.iter().zip(&fdescs).flat_map(|(c, ds): (&GClass, &Vec<Desc>)| c.fields.iter().zip(ds).map(|(f, d)| (f.names.clone(), d.clone()))).collect();
+			let (pnames, d) = if !prev.is_empty() && r.chance(reuse, 4) { r.pick(&prev).clone() } else { (vec![Some((*r.pick(MEM0)).to_owned())], gen_field_desc(r, &names0)) };
+			let name = pnames[0].clone().unwrap_or_default();
 			let ds = to_string(&print_desc(&d));
 			if fields.iter().any(|f| f.desc == ds && f.names[0].as_deref() == Some(&name)) { continue; }
 			let mut ns = vec![Some(name)];
-			ns.extend(other_names(r, n, absent, MEMT, &format!("f{ci}{fi}"), collide.max(30)));
+			ns.extend(other_names(r, n, absent, MEMT, &format!("f{ci}{fi}"), mcollide));
+			// a redeclared member keeps its name in some of the other namespaces too (same key there), fresh names elsewhere
+			for i in 1..n { if i < pnames.len() && r.chance(1, 2) { ns[i] = pnames[i].clone(); } }
 			fields.push(GMember { desc: ds, names: ns, doc: None, params: vec![] });
 			fd.push(d);
 		}
 		let mut methods: Vec<GMember> = Vec::new();
 		let mut md = Vec::new();
 		for mi in 0..r.below(4) {
-			let name = (*r.pick(MEM0)).to_owned();
-			let d = gen_method_desc(r, &names0);
+			let prev: Vec<(Vec<Option<String>>, Desc)> = classes.iter().zip(&mdescs).flat_map(|(c, ds): (&GClass, &Vec<Desc>)| c.methods.iter().zip(ds).map(|(f, d)| (f.names.clone(), d.clone()))).collect();
+			let (pnames, d) = if !prev.is_empty() && r.chance(reuse, 4) { r.pick(&prev).clone() } else { (vec![Some((*r.pick(MEM0)).to_owned())], gen_method_desc(r, &names0)) };
+			let name = pnames[0].clone().unwrap_or_default();
 			let ds = to_string(&print_desc(&d));
 			if methods.iter().any(|f| f.desc == ds && f.names[0].as_deref() == Some(&name)) { continue; }
 			let mut ns = vec![Some(name)];
-			ns.extend(other_names(r, n, absent, MEMT, &format!("m{ci}{mi}"), collide.max(30)));
+			ns.extend(other_names(r, n, absent, MEMT, &format!("m{ci}{mi}"), mcollide));
+			for i in 1..n { if i < pnames.len() && r.chance(1, 2) { ns[i] = pnames[i].clone(); } }
 			methods.push(GMember { desc: ds, names: ns, doc: None, params: vec![] });
 			md.push(d);
 		}
@@ -211,6 +222,7 @@ fn gen_case(r: &mut Rng, out: &mut Out) -> Case {
 		fdescs.push(fd);
 		mdescs.push(md);
 	}
+	out.stats.hit(if inherit { "case:inheritance-aimed" } else { "case:general" });
 	out.stats.hit(&format!("n:{n}"));
 	out.stats.hit(&format!("classes:{}", classes.len()));
 	out.stats.hit(&format!("absent-pct:{absent}"));
@@ -246,17 +258,17 @@ fn supers_sexp(rows: &[(String, Vec<String>)]) -> Sexp {
 }
 
 /// acyclic by construction: edges only from earlier to later nodes of a shuffled order (cycles belong to C16)
-fn gen_supers(r: &mut Rng, nodes: &[String], out: &mut Out) -> Vec<(String, Vec<String>)> {
+fn gen_supers(r: &mut Rng, nodes: &[String], out: &mut Out, dense: bool) -> Vec<(String, Vec<String>)> {
 	let mut order: Vec<String> = nodes.to_vec();
 	r.shuffle(&mut order);
-	let mode = [0, 1, 1, 2, 2, 3, 3, 3][r.below(8)]; // 0 empty, 1 chain-ish, 2/3 dag
+	let mode = if dense { 3 } else { [0, 1, 1, 2, 2, 3, 3, 3][r.below(8)] }; // 0 empty, 1 chain-ish, 2/3 dag
 	let mut rows = Vec::new();
 	let mut depth = vec![0usize; order.len()];
 	if mode != 0 {
 		for i in 0..order.len() {
-			if r.chance(1, 6) { continue; } // provider does not know this class
+			if r.chance(1, if dense { 12 } else { 6 }) { continue; } // provider does not know this class
 			let later = order.len() - i - 1;
-			let k = if later == 0 { 0 } else if mode == 1 { 1 } else { r.below(later.min(3) + 1) };
+			let k = if later == 0 { 0 } else if mode == 1 { 1 } else if dense { r.range(1, later.min(3)) } else { r.below(later.min(3) + 1) };
 			let mut ss: Vec<String> = Vec::new();
 			for _ in 0..k {
 				let j = if mode == 1 && r.chance(3, 4) { i + 1 } else { i + 1 + r.below(later) };
@@ -264,6 +276,13 @@ fn gen_supers(r: &mut Rng, nodes: &[String], out: &mut Out) -> Vec<(String, Vec<
 				depth[j] = depth[j].max(depth[i] + 1);
 			}
 			rows.push((order[i].clone(), ss));
+			if later > 0 && r.chance(1, 8) {
+				// a second row for the same class (two providers know it): the first one in the table answers
+				let j = i + 1 + r.below(later);
+				rows.push((order[i].clone(), vec![order[j].clone()]));
+				depth[j] = depth[j].max(depth[i] + 1);
+				out.stats.hit("supers:class-in-two-rows");
+			}
 		}
 	}
 	r.shuffle(&mut rows);
@@ -272,15 +291,31 @@ fn gen_supers(r: &mut Rng, nodes: &[String], out: &mut Out) -> Vec<(String, Vec<
 	rows
 }
 
+/// generator-side pre-order of the provider's graph
+fn pre(sup: &[(String, Vec<String>)], fuel: usize, o: &str, out: &mut Vec<String>) {
+	if fuel == 0 { return; }
+	out.push(o.to_owned());
+	if let Some((_, ss)) = sup.iter().find(|(k, _)| k == o) { for s in ss { pre(sup, fuel - 1, s, out); } }
+}
+
+/// the same with the super types of every class taken in reverse declaration order
+fn pre_rev(sup: &[(String, Vec<String>)], fuel: usize, o: &str, out: &mut Vec<String>) {
+	if fuel == 0 { return; }
+	out.push(o.to_owned());
+	if let Some((_, ss)) = sup.iter().find(|(k, _)| k == o) { for s in ss.iter().rev() { pre_rev(sup, fuel - 1, s, out); } }
+}
+
 fn gen(r: &mut Rng, tier: Tier, out: &mut Out) {
 	let rounds = if tier == Tier::Thorough { 12000 } else { 320 };
-	for _ in 0..rounds {
-		let case = gen_case(r, out);
+	for round in 0..rounds {
+		let inherit = round % 3 == 2;
+		let case = gen_case(r, out, inherit);
 		let (g, n) = (&case.g, case.n);
 		let m = g.to_sexp();
 		// namespaces: mostly src != 0, sometimes equal, rarely out of range
 		let src = if r.chance(1, 25) { n + r.below(2) } else if r.chance(3, 4) { r.range(1, n - 1) } else { 0 };
-		let dst = if r.chance(1, 25) { n + r.below(2) } else { r.below(n) };
+		let mut dst = if r.chance(1, 25) { n + r.below(2) } else { r.below(n) };
+		if dst == src && r.chance(3, 4) { dst = (src + 1 + r.below(n - 1)) % n; }
 		out.stats.hit(if src >= n || dst >= n { "ns:out-of-range" } else if src == dst { "ns:same" } else if src == 0 { "ns:src0" } else { "ns:src-nonzero" });
 		let (ss, ds) = (Sexp::nat(src), Sexp::nat(dst));
 		let ok_ns = src < n && dst < n;
@@ -337,9 +372,9 @@ fn gen(r: &mut Rng, tier: Tier, out: &mut Out) {
 		// --- members
 		let mut nodes = src_names.clone();
 		for u in &UNMAPPED[..2] { if !nodes.iter().any(|x| x == u) { nodes.push((*u).to_owned()); } }
-		let sup = gen_supers(r, &nodes, out);
+		let sup = gen_supers(r, &nodes, out, inherit);
 		let sups = supers_sexp(&sup);
-		for _ in 0..3 {
+		for _ in 0..(if inherit { 5 } else { 3 }) {
 			let kind = if r.chance(1, 2) { "f" } else { "m" };
 			let mut owner = if r.chance(4, 5) { r.pick(&nodes).clone() } else { pick_class(r) };
 			// members in the source namespace (name, descriptor renamed 0 -> src); `decl` = those of fully named rows
@@ -356,7 +391,35 @@ fn gen(r: &mut Rng, tier: Tier, out: &mut Out) {
 					}
 				}
 			}
-			if !decl.is_empty() && r.chance(3, 4) {
+			let mut shadow_aimed = false;
+			if inherit && r.chance(3, 4) {
+				// aim at a member that at least two classes of one pre-order declare (shadowing / diamonds)
+				let mut best: Vec<(String, String, Desc)> = Vec::new();
+				// … and among those the queries whose answer depends on the declaration order of the super types
+				let mut sens: Vec<(String, String, Desc)> = Vec::new();
+				for o in &nodes {
+					let (mut order, mut rev) = (Vec::new(), Vec::new());
+					pre(&sup, sup.len() + 1, o, &mut order);
+					pre_rev(&sup, sup.len() + 1, o, &mut rev);
+					for (cs, n2, d2) in &decl {
+						if order.contains(cs) && decl.iter().any(|(c3, n3, d3)| c3 != cs && order.contains(c3) && n3 == n2 && d3 == d2) {
+							best.push((o.clone(), n2.clone(), d2.clone()));
+							let first = |ord: &Vec<String>| ord.iter().find(|c| decl.iter().any(|(c3, n3, d3)| c3 == *c && n3 == n2 && d3 == d2)).cloned();
+							if first(&order) != first(&rev) { sens.push((o.clone(), n2.clone(), d2.clone())); }
+						}
+					}
+				}
+				if !sens.is_empty() && r.chance(2, 3) { best = sens; out.stats.hit("member-query:aimed-order-sensitive"); }
+				if !best.is_empty() {
+					let (o, nm, d) = r.pick(&best).clone();
+					owner = o;
+					cand = vec![(nm, d)];
+					shadow_aimed = true;
+					out.stats.hit("member-query:aimed-shadowed");
+				}
+			}
+			if shadow_aimed {
+			} else if !decl.is_empty() && r.chance(3, 4) {
 				// aim at a declaration: the owner is the declaring class or something below it in the provider's graph
 				let (cs, nm, d) = r.pick(&decl).clone();
 				let mut below = vec![cs];
@@ -381,8 +444,28 @@ fn gen(r: &mut Rng, tier: Tier, out: &mut Out) {
 				((*r.pick(MEMT)).to_owned(), print_desc(&if kind == "f" { gen_field_desc(r, &src_names) } else { gen_method_desc(r, &src_names) }))
 			};
 			let args = [m.clone(), Sexp::tag(kind), ss.clone(), ds.clone(), sups.clone(), Sexp::str(&owner), Sexp::str(&nm), Sexp::cps(&d)];
+			{
+				// distribution of the queried graph shapes (plain pre-order from the owner over the provider)
+				let mut order = Vec::new();
+				pre(&sup, sup.len() + 1, &owner, &mut order);
+				let mut distinct: Vec<&String> = Vec::new();
+				for c in &order { if !distinct.contains(&c) { distinct.push(c); } }
+				out.stats.hit(&format!("preorder-len:{}", order.len().min(8)));
+				if distinct.len() < order.len() { out.stats.hit("preorder:diamond"); }
+				if !tsd.contains_key(&owner) { out.stats.hit("owner:unmapped"); }
+				else if order.iter().skip(1).any(|c| !tsd.contains_key(c)) { out.stats.hit("preorder:unmapped-super"); }
+				if order.iter().any(|c| c != &owner && !sup.iter().any(|(k, _)| k == c) && !src_names.contains(c)) { out.stats.hit("preorder:class-in-no-table"); }
+				let declaring: Vec<usize> = distinct.iter().enumerate().filter(|(_, c)| decl.iter().any(|(cs, n2, d2)| cs == **c && *n2 == nm && print_desc(d2) == d)).map(|(i, _)| i).collect();
+				out.stats.hit(&match declaring.first() {
+					None => "declared:nowhere".to_owned(),
+					Some(0) => "declared:own".to_owned(),
+					Some(k) => format!("declared:inherited@{}", (*k).min(5)),
+				});
+				if declaring.len() >= 2 { out.stats.hit("declared:shadowed"); }
+			}
 			out.op("map-member", &args);
 			out.op("oracle-member-resolution", &args);
+			out.op("oracle-member-nearest", &args);
 			out.op("oracle-fallback", &args);
 			out.op("oracle-roundtrip-member", &[m.clone(), Sexp::tag(kind), ss.clone(), ds.clone(), Sexp::str(&owner), Sexp::str(&nm), Sexp::cps(&d)]);
 			if kind == "m" {
@@ -394,17 +477,24 @@ fn gen(r: &mut Rng, tier: Tier, out: &mut Out) {
 				out.op("map-mref", &[m.clone(), ss.clone(), ds.clone(), sups.clone(), Sexp::str(&cls), Sexp::str(&nm), Sexp::cps(&d)]);
 			}
 		}
-		let _ = (ok_ns, tsd);
+		let _ = ok_ns;
 	}
 
 	// --- malformed stored descriptors: remapper_b fails exactly when a *used* row has a descriptor map_desc rejects
 	for _ in 0..(rounds / 4).max(40) {
-		let mut case = gen_case(r, out);
+		let mut case = gen_case(r, out, false);
 		let n = case.n;
 		let mut hit = false;
 		for c in case.g.classes.iter_mut() {
-			for f in c.fields.iter_mut().chain(c.methods.iter_mut()) {
-				if r.chance(1, 3) { f.desc = to_string(&mutate(r, &cps(&f.desc))); hit = true; }
+			for list in [&mut c.fields, &mut c.methods] {
+				for i in 0..list.len() {
+					if !r.chance(1, 3) { continue; }
+					let nd = to_string(&mutate(r, &cps(&list[i].desc)));
+					// keys (first name, descriptor) stay unique inside a class (the codec refuses duplicate keys)
+					if list.iter().any(|o| o.names[0] == list[i].names[0] && o.desc == nd) { continue; }
+					list[i].desc = nd;
+					hit = true;
+				}
 			}
 		}
 		out.stats.hit(if hit { "stored-desc:mutated" } else { "stored-desc:clean" });
@@ -442,13 +532,9 @@ fn gen(r: &mut Rng, tier: Tier, out: &mut Out) {
 
 // ------------------------------------------------------------------------------------------------ executor
 
-/// `SuperClassProvider` over the explicit table of the request
-struct TableProv { rows: Vec<(ObjClassName, IndexSet<ObjClassName>)> }
-impl SuperClassProvider for TableProv {
-	fn get_super_classes(&self, class: &ObjClassNameSlice) -> Result<Option<&IndexSet<ObjClassName>>> {
-		Ok(self.rows.iter().find(|(k, _)| k.as_slice() == class).map(|(_, v)| v))
-	}
-}
+/// the explicit table of the request as the repository's own providers: one `JarSuperProv` per row, in a `Vec`
+/// (`impl SuperClassProvider for Vec<S>`: the first provider that knows the class answers)
+type TableProv = Vec<JarSuperProv>;
 fn supers_from(s: &Sexp) -> R<(TableProv, Vec<(JavaString, Vec<JavaString>)>)> {
 	let mut rows = Vec::new();
 	let mut plain = Vec::new();
@@ -456,10 +542,11 @@ fn supers_from(s: &Sexp) -> R<(TableProv, Vec<(JavaString, Vec<JavaString>)>)> {
 		let [k, ss] = e.as_list()? else { return Err("supers row".into()) };
 		let k = k.as_jstring()?;
 		let ss: Vec<JavaString> = ss.as_list()?.iter().map(|x| x.as_jstring()).collect::<R<_>>()?;
-		rows.push((cn(k.clone()), ss.iter().cloned().map(cn).collect()));
+		let set: IndexSet<ObjClassName> = ss.iter().cloned().map(cn).collect();
+		rows.push(JarSuperProv { super_classes: IndexMap::from([(cn(k.clone()), set)]) });
 		plain.push((k, ss));
 	}
-	Ok((TableProv { rows }, plain))
+	Ok((rows, plain))
 }
 
 type Key = (JavaString, JavaString);
@@ -579,7 +666,7 @@ fn exec(op: &str, args: &[Sexp]) -> Ans {
 					let h = q_ref(b, kind, owner, nm, d).ok();
 					Ans::Ok(Sexp::list(vec![Sexp::opt(f.as_ref(), key_sexp), Sexp::opt(g.as_ref(), key_sexp), Sexp::opt(h.as_ref(), ref_sexp)]))
 				}
-				if prov.rows.is_empty() {
+				if prov.is_empty() {
 					match m.remapper_b(src, dst, NoSuperClassProvider::new()) { Ok(b) => answer(&b, kind, &owner, &nm, &d), Err(_) => Ans::err() }
 				} else {
 					match m.remapper_b(src, dst, &prov) { Ok(b) => answer(&b, kind, &owner, &nm, &d), Err(_) => Ans::err() }
@@ -619,7 +706,7 @@ fn exec(op: &str, args: &[Sexp]) -> Ans {
 				let Ok(a) = m.remapper_a(src, dst) else { return Ans::out_of_domain() };
 				if q_desc(&a, "m", &d).is_err() == scan_bad(&jstr_cps(&d)) { Ans::pass() } else { Ans::fail("differs") }
 			}
-			("oracle-member-resolution" | "oracle-fallback", [kind, src, dst, sup, owner, nm, d]) => {
+			("oracle-member-resolution" | "oracle-fallback" | "oracle-member-nearest" | "oracle-member-nearest-full", [kind, src, dst, sup, owner, nm, d]) => {
 				let kind = tr!(kind.as_atom());
 				if kind != "f" && kind != "m" { return Ans::BadOp("kind".into()); }
 				let (prov, plain) = tr!(supers_from(sup));
@@ -633,6 +720,27 @@ fn exec(op: &str, args: &[Sexp]) -> Ans {
 					return if q_map(&b, kind, &owner, &nm, &d).ok() == spec { Ans::pass() } else { Ans::fail("differs") };
 				}
 				let Ok(b0) = m.remapper_b(src, dst, NoSuperClassProvider::new()) else { return Ans::out_of_domain() };
+				if op == "oracle-member-nearest" || op == "oracle-member-nearest-full" {
+					// the pre-order of the provider's graph (whether or not the classes have a mapping); domain: all of them have one
+					fn dfs_all(plain: &[(JavaString, Vec<JavaString>)], fuel: usize, o: &JavaStr, out: &mut Vec<JavaString>) -> Option<()> {
+						if fuel == 0 { return None; }
+						out.push(o.to_owned());
+						if let Some((_, ss)) = plain.iter().find(|(k, _)| **k == *o) {
+							for s in ss { dfs_all(plain, fuel - 1, s, out)?; }
+						}
+						Some(())
+					}
+					let mut order = Vec::new();
+					if dfs_all(&plain, plain.len() + 1, &owner, &mut order).is_none() { return Ans::out_of_domain(); }
+					// `-full`: the statement without the domain (never generated; replayed for the known finding)
+					if op == "oracle-member-nearest" {
+						for c in &order {
+							match b0.map_class_fail(ocs(c)) { Ok(Some(_)) => {}, _ => return Ans::out_of_domain() }
+						}
+					}
+					let spec = order.iter().find_map(|c| q_fail(&b0, kind, c, &nm, &d).ok().flatten());
+					return match q_fail(&b, kind, &owner, &nm, &d) { Ok(x) if x == spec => Ans::pass(), Ok(_) => Ans::fail("differs"), Err(_) => Ans::fail("err") };
+				}
 				let pairs = class_pairs(&rows_of(&m), s_i, d_i);
 				let mut distinct: Vec<&JavaString> = Vec::new();
 				for p in &pairs { if !distinct.contains(&&p.0) { distinct.push(&p.0); } }
